@@ -34,6 +34,34 @@ prop("C07", "PBT/fuzzing for crash-freedom: hostile documents x full callable se
      "Exploration: schemas over all callables (well-typed arguments) with and without casts on hostile documents; Schema.validate and Rule.test must return result objects; any escaping exception is a violation bucketed by root cause so the search continues behind known ones.",
      TRUST, "DESIGN.md 3/C07")
 
+prop("C08", "PBT over generated call histories (model-based): before/after snapshots, object-graph fingerprints, harness-side attribute-write tracer, differential against freshly built objects",
+     "Exploration: histories of filter/get/test/validate calls sharing schema, rule, condition, path and document objects; after every call the documents are type-exactly unchanged and un-aliased, every shared object's fingerprint is unchanged, the write tracer saw no attribute write to a pre-existing object, and the result equals the same call on fresh objects and the first time it was made. Thread schedules are covered by the no-shared-write argument; a threaded stress run in the thorough tier is corroboration only.",
+     TRUST + " Interleavings are sequential; schedules are not enumerated.", "DESIGN.md 3/C08")
+prop("C09", "PBT, exhaustive over spec-expressible leaf shapes x generated spellings; differential spec-built vs DSL-built (== and behaviour) plus reference model",
+     "Exploration: every spec-expressible leaf shape with generated arguments, argument shapes, spellings (case, aliases, type names), nesting in and/or/xor lists, data-path arguments and escaped literals; from_spec(spec) must equal the DSL object (both directions) and filter identically (also vs the reference).",
+     TRUST, "DESIGN.md 3/C09")
+prop("C10", "PBT: generated spec spellings for parts, paths, path strings, rules and YAML text; differential parsed vs API-built (== and behaviour vs reference)",
+     "Exploration: part specs (long/shorthand forms, labels, default type), path specs with suffixes in either order, delimiter strings with numeric tokens, rule specs with casts and every doc shape, and YAML text (block/flow, via text and via file) must parse to objects equal to the API-built ones, with the doc normal form, and behave like the reference on probe documents.",
+     TRUST + " ruamel.yaml is trusted for the YAML pre-check.", "DESIGN.md 3/C10")
+prop("C11", "PBT round trip (to_json_like -> real JSON text -> from_json_like), exhaustive over the meaningful DSL's leaf shapes; re-serialisation fixed point",
+     "Exploration: every leaf shape of the meaningful DSL with JSON-representable, type, data-path and path-looking-literal arguments, nested to depth 4: the JSON-like form must survive json.dumps/loads type-exactly, rebuild to an equal condition that filters identically (also vs the reference), and serialise to the same data again.",
+     TRUST, "DESIGN.md 3/C11")
+prop("C12", "PBT round trip of path part specs through real JSON; behavioural comparison with original and reference walk; refusal accepted",
+     "Exploration: paths built through the API, from part specs and from delimiter strings (conditioned, combined, labelled parts): to_part_specs either raises or yields specs that survive JSON and rebuild a path selecting the same nodes and concrete paths as the original and as the reference, equal to the original when that was spec-built, labels kept.",
+     TRUST, "DESIGN.md 3/C12")
+prop("C13", "PBT round trip of rules and schemas through real JSON text, casts included; behaviour vs original and reference on hostile documents",
+     "Exploration: schemas in the C11/C12 fragment with and without casts: json.dumps of the JSON-like form must succeed, the rebuilt schema/rule must equal the original and give the same validity, failures and exact cast data as the original and the reference.",
+     TRUST, "DESIGN.md 3/C13")
+prop("C14", "PBT over derived term pairs (rebuilt / commuted / one atom changed): equivalence-relation laws and 'equal implies same behaviour' (behaviour observed on the library, observability judged by the reference)",
+     "Exploration: for terms of every class, rebuilt and commuted copies must compare equal; reflexivity, symmetry and transitivity are checked over all pairs/triples of {x, rebuilt, commuted, atom-changed, commuted-rebuilt}; whenever two objects compare equal they must behave identically on probe documents. Atom changes are made observable by guiding them with the document.",
+     TRUST, "DESIGN.md 3/C14")
+prop("C15", "PBT with cast-directed generation against a reference cast model; aliasing and input-snapshot checks",
+     "Exploration: schemas with str->bool / str->int casts over every path shape on documents rich in castable and uncastable strings; cast_data must be exactly the input with the reference replacements, verdicts judged on the copy, input unchanged and not aliased, stand-alone Rule.test likewise.",
+     TRUST, "DESIGN.md 3/C15")
+prop("C16", "PBT over parse histories of one spec structure (repeated parses through all entry points, sub-structure parses); type- and order-exact snapshots",
+     "Exploration: well-formed specs of every class in every spelling are parsed 2-6 times (and their sub-structures in between); the caller's structure must stay type-exactly unchanged and every re-parse must equal and behave like the first.",
+     TRUST, "DESIGN.md 3/C16")
+
 BUILT = [l.strip() for l in open(os.path.join(HERE, "tools", "built.txt")) if l.strip()]
 ALL = [f"C{i:02d}" for i in range(1, 21)]
 checks = []
